@@ -225,65 +225,43 @@ func (a *appModel) cloneWith(accepted []pending) *appModel {
 // later samples of the same series of the same transaction (used only to classify a stored-set
 // disagreement under a narrow kind, never to accept it).
 func markerReorders(acc []pending) [][]pending {
-	var out [][]pending
 	isMarker := func(p pending) bool { return p.v.stale && p.v.kind == "f" }
-	// series that have a float marker in front of a later non-marker sample
-	movable := map[int]bool{}
-	var order []int
-	for i, p := range acc {
-		if !isMarker(p) {
-			continue
-		}
-		for _, q := range acc[i+1:] {
-			if q.series == p.series && !isMarker(q) && !movable[p.series] {
-				movable[p.series] = true
-				order = append(order, p.series)
-			}
-		}
+	// breadth-first over "move one float marker behind a later sample of its series"
+	// (capped; a transaction has at most 8 appends)
+	type state []int
+	key := func(st state) string { return fmt.Sprint([]int(st)) }
+	start := make(state, len(acc))
+	for i := range start {
+		start[i] = i
 	}
-	// for every non-empty subset of those series: within the series' own slots, first the
-	// non-marker samples in order, then the markers in order
-	for mask := 1; mask < 1<<len(order); mask++ {
-		sel := map[int]bool{}
-		for bi, si := range order {
-			if mask&(1<<bi) != 0 {
-				sel[si] = true
+	seen := map[string]bool{key(start): true}
+	queue := []state{start}
+	var out [][]pending
+	for len(queue) > 0 && len(seen) < 3000 {
+		cur := queue[0]
+		queue = queue[1:]
+		for a := 0; a < len(cur); a++ {
+			if !isMarker(acc[cur[a]]) {
+				continue
 			}
-		}
-		o := append([]pending(nil), acc...)
-		for si := range sel {
-			var slots []int
-			var plain, markers []pending
-			for i, p := range acc {
-				if p.series != si {
+			for b := a + 1; b < len(cur); b++ {
+				if acc[cur[b]].series != acc[cur[a]].series {
 					continue
 				}
-				slots = append(slots, i)
-				if isMarker(p) {
-					markers = append(markers, p)
-				} else {
-					plain = append(plain, p)
+				nx := make(state, 0, len(cur))
+				nx = append(nx, cur[:a]...)
+				nx = append(nx, cur[a+1:b+1]...)
+				nx = append(nx, cur[a])
+				nx = append(nx, cur[b+1:]...)
+				if k := key(nx); !seen[k] {
+					seen[k] = true
+					queue = append(queue, nx)
+					o := make([]pending, len(nx))
+					for i, idx := range nx {
+						o[i] = acc[idx]
+					}
+					out = append(out, o)
 				}
-			}
-			for k, p := range append(plain, markers...) {
-				o[slots[k]] = p
-			}
-		}
-		out = append(out, o)
-	}
-	// single moves: one marker behind one later non-marker sample of its series
-	for i := range acc {
-		if !isMarker(acc[i]) {
-			continue
-		}
-		for j := i + 1; j < len(acc); j++ {
-			if acc[j].series == acc[i].series && !isMarker(acc[j]) {
-				o := make([]pending, 0, len(acc))
-				o = append(o, acc[:i]...)
-				o = append(o, acc[i+1:j+1]...)
-				o = append(o, acc[i])
-				o = append(o, acc[j+1:]...)
-				out = append(out, o)
 			}
 		}
 	}
@@ -633,7 +611,6 @@ func (h *harness) end(t *tx, rollback bool) bool {
 			for _, alt := range markerReorders(t.am.accepted) {
 				m2, am2 := base.clone(), t.am.cloneWith(alt)
 				m2.commit(am2)
-				h.c.Logf("alt order %v: %s", alt, h.diffStored(m2))
 				if h.diffStored(m2) == "" {
 					h.c.Violatef("float-stale-marker-committed-behind-later-sample-of-same-series", "config {%s}: the stored set after Commit is not the one of replaying the series' accepted samples in append order (%s) but equals the one obtained when a float staleness marker is replayed BEHIND later samples of the same series of the same transaction\nhistory: %s", h.cfg, diff, h.history())
 					h.m = m2
